@@ -1,7 +1,7 @@
 """C29 Mass-property and spatial-algebra identities (DESIGN 5 C29).
 Tie: (T) translator -- Gen/c29in_gen.v (Inertia_::pointMassAt, isValidInertiaMatrix, shiftTo/FromMassCenter),
 Gen/c29si_gen.v (SpatialInertia_::operator*, calcMassMoment), Gen/c29sa_gen.v (SpatialAlgebra.h shifts and
-findRelative...InF) are regenerated from /repo on every run -- plus (X) a correspondence run in which every translated
+findRelative...InF), Gen/c29ui_gen.v (UnitInertia_ shape factories) are regenerated from /repo on every run -- plus (X) a correspondence run in which every translated
 kernel AND every hand-written model function of coq/C29/C29_Model.v (extracted to OCaml, float NumOps) is executed
 against the compiled C++ entry point it models on the same generated inputs (lib/tvgen.py machinery, combined meta).
 Known finding replayed on every run: Inertia::isValidInertiaMatrix accepts an indefinite matrix (DESIGN 7.4)."""
@@ -9,8 +9,8 @@ import os, sys, math, json
 from vlib import *
 import tvgen
 
-PROPS = ['Props/Properties_C29.v', 'Props/Properties_C29b.v', 'Props/Properties_C29c.v']
-GROUPS = ['c29in', 'c29si', 'c29sa']
+PROPS = ['Props/Properties_C29.v', 'Props/Properties_C29b.v', 'Props/Properties_C29c.v', 'Props/Properties_C29d.v', 'Props/Properties_C29e.v']
+GROUPS = ['c29in', 'c29si', 'c29sa', 'c29ui']
 KEY_INDEF = 'isValidInertiaMatrix-accepts-indefinite'
 
 def H(coq, params, ret, cxx):
@@ -123,10 +123,24 @@ def valid_stream(rng, hist):
         s = 10.0 ** rng.randint(-8, 8); return [s * x for x in cloud(rng, 3)]
     return [0.0] * 6
 
+def load_corpus():
+    out = []
+    p = os.path.join(VERIF, 'corpus', 'C29', 'isvalid_cases.txt')
+    if os.path.exists(p):
+        for l in open(p):
+            l = l.split('#')[0].split()
+            if len(l) == 6: out.append([float(x) for x in l])
+    return out
+
 def make_argfn(hist):
+    corpus = load_corpus(); hist['corpus'] = len(corpus)
     def argfn(rng, kn, pn, pt):
         if pt == 'M33' and pn in ('R', 'R_FB', 'R_BC'): return rand_rotation(rng)
-        if kn['coq'] == 'in_isValid': return valid_stream(rng, hist)
+        if kn['coq'] == 'in_isValid':
+            if corpus: return corpus.pop(0)          # regression cases first
+            return valid_stream(rng, hist)
+        if kn['coq'].startswith('ui_') and pt == 'S':   # shape dimensions: nonnegative, the degenerate limits (0) included
+            return [0.0] if rng.random() < 0.2 else [rng.uniform(0.0, 3.0)]
         if pt == 'S' and pn in ('m', 'm2', 'mass'): return [rng.uniform(0.05, 5.0)]
         if pt == 'S' and pn == 'mass0':   # setMassProperties(m, com, Inertia): exercise the m == 0 branch too
             return [0.0] if rng.random() < 0.15 else [rng.uniform(0.05, 5.0)]
